@@ -12,6 +12,7 @@ import WinterProofs.Lemmas.C20Gen
 import WinterProofs.Lemmas.C20GenRlz
 import WinterProofs.Lemmas.C20GenFps
 import WinterProofs.Lemmas.C20GenWrap
+import WinterProofs.Lemmas.C20GenFzr
 import WinterProofs.Lemmas.C20Div
 import Mathlib.Algebra.Field.Rat
 
